@@ -55,10 +55,7 @@ def exempt : List String := [
   -- the rejecting path undoes an in-place insertion by search-and-delete (cssstylesheet.py:815-826, fix 3ec898a for
   -- finding C11-nsinsert-kept): no save/restore shape the discipline can validate. Covered by
   -- `all_disciplined_guarded` (every other path), the oracle and the trace correspondence (that path).
-  "CSSStyleSheet.insertRule", "CSSStyleSheet.add",
-  -- parser-internal helper, not a public mutator: leaves `__encodingOverride`/`__newEncoding` set when `cssText`
-  -- raises and assigns `encoding` after `cssText` was committed (documented residual)
-  "CSSStyleSheet._setCssTextWithEncodingOverride"]
+  "CSSStyleSheet.insertRule", "CSSStyleSheet.add"]
 
 /-- **T11.2 (partial)** every extracted public mutator passes the discipline, except the names in `exempt` -/
 theorem all_disciplined_partial :
@@ -82,9 +79,7 @@ def exemptReadonly : List String := [
   "Property.cssText", "Property.name", "Property.propertyValue", "Property.value", "Property.priority",
   -- edits the style of an existing margin rule, which has its own read-only flag; a CSSPageRule *created*
   -- read-only has no margin rules (its constructor takes none), so this branch is not reachable for such objects
-  "CSSPageRule.__setitem__",
-  -- parser-internal helper
-  "CSSStyleSheet._setCssTextWithEncodingOverride"]
+  "CSSPageRule.__setitem__"]
 
 /-- **T11.3 (instances)** every extracted mutator, started on a read-only object, leaves every field unchanged
 however it ends (except `exemptReadonly`) -/
